@@ -40,7 +40,9 @@ TRecon ==
                \cup Flag(LogCount(Ev.ops) # PlanSize(L), "reconDuplicateOps")
                \cup Flag(Ev.ids # [i \in 1..Len(Ev.ids) |-> Ev.base + i], "reconIds")
                \cup Flag((\A n \in nis : NIof(I, n) = rib[n]) /\ LogCount(Ev.ops) # 0, "reconEqualNotEmpty")
-               \cup Flag(pend # EmptyFn, "reconTargetHolds"))
+               \cup Flag(pend # EmptyFn, "reconTargetHolds")
+               \* the same target reached through reconciler.RemoteRIB (client.Get + rib.FromGetResponses) gives the same plan
+               \cup Flag("remote" \in DOMAIN Ev /\ Ev.remote # "same", "reconRemote"))
      /\ want' = I /\ applying' = TRUE /\ nleft' = LogCount(Ev.ops)
   /\ UNCHANGED <<vars, skip, dead, known>>
 
